@@ -7,12 +7,41 @@ L2  a loop body does not read the loop variable of an earlier, finished loop
     (stale variable after a rename);
 L3  a local that is assigned is read somewhere (a value computed and bound to
     a name nobody reads is a lost result — the wrong-variable slip).
+L4  a named parameter of a concrete method is read in its body (a parameter
+    that is accepted and then ignored is a dropped argument: the wrapper that
+    stops forwarding `return_eta` or `num`).  The ten parameters today's tree
+    ignores on purpose are listed in UNUSED_OK, one reason each.
 """
 import ast
 
 from ..loader import U, norm_stmt
 
 SKIP = ('chi/library/_data_library_api.py',)
+
+UNUSED_OK = {
+    ('CovariateModel', 'set_parameter_names', 'mask_names'):
+        'accepted for signature compatibility; covariate models have no '
+        'name masking',
+    ('LogNormalKDEFilter', '__init__', 'bandwidth'):
+        'documented hyperparameter that is not implemented (rule-of-thumb '
+        'bandwidth is always used); outside the given properties',
+    ('PopulationModel', 'set_covariate_names', 'names'):
+        'base implementation: models without covariates ignore the names',
+    ('HeterogeneousModel', 'compute_individual_parameters', 'eta'):
+        'psi is the parameter itself; eta does not enter',
+    ('HeterogeneousModel', 'compute_individual_parameters', 'return_eta'):
+        'psi = eta for this model',
+    ('PooledModel', 'compute_individual_parameters', 'eta'):
+        'psi is the pooled parameter; eta does not enter',
+    ('PooledModel', 'compute_individual_parameters', 'return_eta'):
+        'psi = eta for this model',
+    ('PooledModel', 'n_hierarchical_parameters', 'n_ids'):
+        'pooled models contribute no bottom-level parameters',
+    ('TruncatedGaussianModel', 'compute_individual_parameters', 'parameters'):
+        'only the centred parametrisation exists: psi = eta',
+    ('TruncatedGaussianModel', 'compute_individual_parameters', 'return_eta'):
+        'psi = eta for this model',
+}
 
 
 def _targets(t):
@@ -128,6 +157,23 @@ def r00(ctx, repo, files=None):
                 '`%s` is assigned (`%s`) but never read in %s: the value is '
                 'lost — typically the statement was meant to (re)bind '
                 'another name' % (v, norm_stmt(stmt)[:60], construct))
+        # L4
+        body = repo.body_wo_doc(fn)
+        trivial = len(body) == 1 and isinstance(body[0], (ast.Raise,
+                                                          ast.Pass))
+        if not repo.is_abstract(fn) and not trivial:
+            for p in [a.arg for a in fn.args.args + fn.args.kwonlyargs]:
+                if p == 'self' or p in loads or p.startswith('_'):
+                    continue
+                if (cls, fn.name, p) in UNUSED_OK:
+                    continue
+                bad += 1
+                ctx.violation(
+                    rule, repo.loc(fn, cls, fn.name), construct,
+                    'L4 ignored parameter %s' % p,
+                    '%s accepts the argument `%s` and never reads it: the '
+                    'caller\'s value is silently dropped (not forwarded to '
+                    'the call that implements the method)' % (construct, p))
         if not bad:
             ctx.ok(rule, repo.loc(fn, cls, fn.name), construct,
                    'loop elements are used, no stale loop variable, every '
